@@ -31,6 +31,7 @@ type PtrV struct {
 type StructV struct {
 	T      types.Type // named or struct type
 	Fields []Value
+	Ghost  map[string]*Term // ghost fields declared for the type (copied with the value)
 }
 
 type ArrayV struct {
@@ -494,7 +495,7 @@ func (x *Exec) loadComp(st *State, obj *Term, t types.Type, hn func(string) stri
 		return v
 	case *types.Pointer:
 		o := rd("", SInt)
-		st.assumeBound(x, o, new(big.Int), nil)
+		x.entryObjFact(st, o)
 		off := b.Int(0)
 		if !isStructT(u.Elem()) {
 			off = rd("poff", SInt)
@@ -506,6 +507,7 @@ func (x *Exec) loadComp(st *State, obj *Term, t types.Type, hn func(string) stri
 		for _, f := range x.sliceInvLoaded(sv) {
 			st.assume(f)
 		}
+		x.entryObjFact(st, sv.Obj)
 		return sv
 	case *types.Interface:
 		ty := rd("ityp", SInt)
@@ -537,12 +539,12 @@ func (x *Exec) sliceInvLoaded(sv SliceV) []*Term {
 	for _, t := range []*Term{sv.Off, sv.Len, sv.Cap} {
 		b.SetBounds(t, new(big.Int), pow2(maxLenLog))
 	}
-	b.SetBounds(sv.Obj, new(big.Int), nil)
+	// no sign fact about the object: values loaded from memory may be freshly allocated (negative ids)
 	raw := func(op string, a, c *Term) *Term { return b.mk(op, SBool, "", nil, a, c) }
 	return []*Term{
-		raw("<=", b.Int(0), sv.Obj), raw("<=", b.Int(0), sv.Off), raw("<=", sv.Off, mx),
+		raw("<=", b.Int(0), sv.Off), raw("<=", sv.Off, mx),
 		raw("<=", b.Int(0), sv.Len), raw("<=", sv.Len, sv.Cap), raw("<=", sv.Cap, mx),
-		b.Or(b.mk("<", SBool, "", nil, b.Int(0), sv.Obj), b.Eq(sv.Cap, b.Int(0))),
+		b.Or(b.Not(b.mk("=", SBool, "", nil, b.Int(0), sv.Obj)), b.Eq(sv.Cap, b.Int(0))),
 	}
 }
 
@@ -611,7 +613,7 @@ func (x *Exec) loadElem(st *State, obj, idx *Term, elem types.Type) Value {
 		v := b.Select(b.Select(h, obj), idx)
 		switch u := elem.Underlying().(type) {
 		case *types.Pointer:
-			st.assumeBound(x, v, new(big.Int), nil)
+			x.entryObjFact(st, v)
 			return PtrV{Obj: v, Off: b.Int(0), Elem: u.Elem()}
 		case *types.Signature:
 			return FuncV{ID: v}
@@ -637,6 +639,7 @@ func (x *Exec) loadElem(st *State, obj, idx *Term, elem types.Type) Value {
 		for _, f := range x.sliceInvLoaded(sv) {
 			st.assume(f)
 		}
+		x.entryObjFact(st, sv.Obj)
 		return sv
 	case *types.Interface:
 		rd := func(s string) *Term {
@@ -859,6 +862,7 @@ func (x *Exec) load(st *State, p PtrV) Value {
 		for i := 0; i < u.NumFields(); i++ {
 			sv.Fields = append(sv.Fields, x.loadField(st, p.Obj, p.Elem, i))
 		}
+		x.loadGhosts(st, p.Obj, &sv)
 		return sv
 	case *types.Array:
 		return x.loadArray(st, p.Obj, p.Off, u)
@@ -879,6 +883,7 @@ func (x *Exec) store(st *State, p PtrV, v Value) {
 		for i := 0; i < u.NumFields(); i++ {
 			x.storeField(st, p.Obj, p.Elem, i, sv.Fields[i])
 		}
+		x.storeGhosts(st, p.Obj, sv)
 		return
 	case *types.Array:
 		x.storeArray(st, p.Obj, p.Off, u, v.(ArrayV))
@@ -920,4 +925,42 @@ func (x *Exec) ifacePayload(st *State, v Value) *Term {
 		}
 	}
 	return x.b.Fresh("box", SInt)
+}
+
+// ghost fields declared "of T" travel with struct values of type T
+func (x *Exec) loadGhosts(st *State, obj *Term, sv *StructV) {
+	if x.db == nil {
+		return
+	}
+	tn := typeName(sv.T)
+	for g, owner := range x.db.GhostOf {
+		if owner == tn || strings.HasSuffix(tn, "."+owner) {
+			if sv.Ghost == nil {
+				sv.Ghost = map[string]*Term{}
+			}
+			h := st.heap(x, "G_"+g, SArr(SInt, x.db.Ghosts[g]))
+			sv.Ghost[g] = x.b.Select(h, obj)
+		}
+	}
+}
+
+func (x *Exec) storeGhosts(st *State, obj *Term, sv StructV) {
+	for g, val := range sv.Ghost {
+		name := "G_" + g
+		h := st.heap(x, name, SArr(SInt, x.db.Ghosts[g]))
+		st.setHeap(name, x.b.Store(h, obj, val), obj)
+	}
+}
+
+// entryObjFact: an object id read directly from the function-entry version of a heap denotes
+// memory that existed at entry, so it is not one of the (negative) ids allocated since.
+func (x *Exec) entryObjFact(st *State, o *Term) {
+	t := o
+	// select(select(H@0, obj), idx) or select(F@0, obj)
+	for t.Op == "select" {
+		t = t.Args[0]
+	}
+	if t.Op == "const" && strings.HasSuffix(t.Name, "@0") && o.Op == "select" && !o.bound {
+		st.assumeBound(x, o, new(big.Int), nil)
+	}
 }
